@@ -284,6 +284,33 @@ def fuse_case_failures(d, groups, st=None, nested=None, cache=None):
                 st.transitions += 2
         except Exception as e:
             fails.append((f"C05/conj-unfuse/raised-{type(e).__name__}", f"groups={groups}: {e}"))
+    # the conjugate taken AFTER the array was fused (its index objects have been through the fuse machinery) is an
+    # input like any other: fusing it with the same groups must follow its own directions
+    if results:
+        try:
+            y = x.conj()
+            yf = y.fuse(*groups)
+            if st is not None:
+                st.transitions += 2
+            exp, errs = expected_fused_blocks(sym, y, yf, groups, absval=ferm)
+            if not errs:
+                if yf.charge != y.charge:
+                    errs.append(("charge", f"{yf.charge} vs {y.charge}"))
+                errs += compare_blocks(yf.blocks, exp, absval=ferm)
+            for kind, det in errs:
+                fails.append((f"C05/fuse-of-conj-after-fuse/{kind}", f"groups={groups}: {det}"))
+            if not errs and new_axes:
+                yu = unfuse_axes(yf, new_axes)
+                if tuple(index_key(i) for i in yu.indices) != tuple(index_key(y.indices[p]) for p in perm):
+                    fails.append(("C05/fuse-of-conj-after-fuse/unfuse-indices", f"groups={groups}: index tables of the conjugate not restored"))
+                else:
+                    gy = gt_of(y) if ferm else None
+                    wanty = RG.transpose(gy, perm).arr if ferm else embed(y).transpose(perm)
+                    framey = tuple(frame_of(y)[p] for p in perm)
+                    if not exact_equal(embed(yu, framey, dtype=wanty.dtype), wanty):
+                        fails.append(("C05/fuse-of-conj-after-fuse/unfuse-value", f"groups={groups}: conjugate not restored"))
+        except Exception as e:
+            fails.append((f"C05/fuse-of-conj-after-fuse/raised-{type(e).__name__}", f"groups={groups}: {e}"))
     return fails, nontrivial
 
 
